@@ -102,7 +102,7 @@ func minimise(t *testing.T, sc Scenario, prop string, seed uint64, cfg json.RawM
 		if s == nil {
 			s = []Step{}
 		}
-		o := sc.Run(t, prop, seed, cfg, s, tp, false)
+		o := runSc(sc, t, prop, seed, cfg, s, tp, false)
 		if o.Viol != nil && o.Viol.Class == class {
 			return o
 		}
@@ -198,14 +198,14 @@ func Worker(t *testing.T) {
 			rng := sim.NewRand(sim.Mix(tr.Seed))
 			cfg := sc.GenCfg(rng, tr.Tier, env.Prop, env.Variant)
 			sim.SeedRuntime(sim.Mix(tr.Seed ^ 0x71e5))
-			o = sc.Run(t, env.Prop, tr.Seed, cfg, nil, nil, true)
+			o = runSc(sc, t, env.Prop, tr.Seed, cfg, nil, nil, true)
 		} else {
 			steps := tr.Steps
 			if steps == nil {
 				steps = []Step{}
 			}
 			sim.SeedRuntime(sim.Mix(tr.Seed ^ 0x71e5))
-			o = sc.Run(t, env.Prop, tr.Seed, tr.Cfg, steps, tr.Tape, true)
+			o = runSc(sc, t, env.Prop, tr.Seed, tr.Cfg, steps, tr.Tape, true)
 		}
 		res.Runs = 1
 		res.Steps = int64(o.NSteps)
@@ -230,7 +230,26 @@ func Worker(t *testing.T) {
 		rng := sim.NewRand(sim.Mix(seed))
 		cfg := sc.GenCfg(rng, env.Tier, env.Prop, env.Variant)
 		sim.SeedRuntime(sim.Mix(seed ^ 0x71e5))
-		o := sc.Run(t, env.Prop, seed, cfg, nil, nil, false)
+		o := runSc(sc, t, env.Prop, seed, cfg, nil, nil, false)
+		if os.Getenv("VERIF_SELFTEST") != "" {
+			// determinism self-test: the recording of a run, replayed, must give the same event log
+			st := o.Steps
+			if st == nil {
+				st = []Step{}
+			}
+			o2 := runSc(sc, t, env.Prop, seed, o.Cfg, st, o.Tape, false)
+			if o2.Hash != o.Hash && os.Getenv("VERIF_DEBUG") != "" {
+				a := runSc(sc, t, env.Prop, seed, cfg, nil, nil, true)
+				b := runSc(sc, t, env.Prop, seed, o.Cfg, st, o.Tape, true)
+				os.WriteFile("/tmp/selftest-a.log", []byte(strings.Join(a.Log, "\n")), 0o644)
+				os.WriteFile("/tmp/selftest-b.log", []byte(strings.Join(b.Log, "\n")), 0o644)
+				fmt.Fprintf(os.Stderr, "tape lens %d %d steps %d %d\n", len(a.Tape), len(b.Tape), len(a.Steps), len(b.Steps))
+			}
+			if o2.Hash != o.Hash {
+				res.Notes = append(res.Notes, fmt.Sprintf("selftest: seed %d replays to a different event log (%016x vs %016x)", seed, o.Hash, o2.Hash))
+				res.Inconclusive++
+			}
+		}
 		res.Runs++
 		res.Steps += int64(o.NSteps)
 		res.SimNanos += o.SimNanos
@@ -279,9 +298,12 @@ func Worker(t *testing.T) {
 			if steps == nil {
 				steps = []Step{}
 			}
-			final := sc.Run(t, env.Prop, seed, o.Cfg, steps, tape, true)
+			final := runSc(sc, t, env.Prop, seed, o.Cfg, steps, tape, true)
 			if final.Viol == nil || final.Viol.Class != best.Viol.Class {
-				final = best
+				// the minimised recording does not reproduce: not a verdict
+				res.Notes = append(res.Notes, fmt.Sprintf("seed %d: violation %s is not reproduced by its own minimised recording (non-reproducible)", seed, best.Viol.Class))
+				res.Inconclusive++
+				continue
 			}
 			lg := final.Log
 			if len(lg) > 400 {
@@ -302,4 +324,19 @@ func Worker(t *testing.T) {
 			sim.BetweenRuns()
 		}
 	}
+}
+
+// runSc seeds the runtime's timer-tie stream from the run's seed and executes
+// the run: every execution of (seed, cfg, steps, tape) starts from the same
+// runtime state, whether it is the first exploration, a minimisation candidate
+// or a replay in a fresh process.
+func runSc(sc Scenario, t *testing.T, prop string, seed uint64, cfg json.RawMessage, steps []Step, tape []byte, trace bool) *RunOut {
+	sim.SeedRuntime(sim.Mix(seed ^ 0x71e5))
+	pendingReplay = nil
+	if steps != nil {
+		tp := tape
+		pendingReplay = &tp
+	}
+	defer func() { pendingReplay = nil }()
+	return sc.Run(t, prop, seed, cfg, steps, tape, trace)
 }
